@@ -519,6 +519,15 @@ def rule_unaligned(rep: Report, repo: Repo, cu: CUnit) -> None:
     # --- python side
     dec = repo.func(READER_REL, 'Reader._bit_address_decompose')
     pdefs = temp_values(dec)                 # named sub-expressions (a mask, a shift amount) are read through
+    # the decomposition is what the function RETURNS: (word address, bit offset), whatever its locals are called
+    rets_ = [r for r in walk_no_nested(dec) if isinstance(r, ast.Return)]
+    if len(rets_) == 1 and isinstance(rets_[0].value, ast.Tuple) and len(rets_[0].value.elts) == 2:
+        class _Sub(ast.NodeTransformer):
+            def visit_Name(self, node: ast.Name) -> ast.AST:
+                return clone(pdefs[node.id]) if isinstance(node.ctx, ast.Load) and node.id in pdefs else node
+        from ..pyfacts import clone
+        for var_, e_ in zip(('word_address', 'bit_offset'), rets_[0].value.elts):
+            pdefs = {**pdefs, var_: _Sub().visit(clone(e_))}
     gw = inline_pure_temps(repo.func(READER_REL, 'Reader.get_word'))
     # --- C side
     cu.inline_void_helpers("mem_get_word_unaligned", keep=[])          # a recording helper reads as the stores it makes
@@ -1029,7 +1038,9 @@ def rule_masks(rep: Report, repo: Repo) -> None:
     for q in ('Reader._get_memory_word', 'Reader._set_memory_word', 'Reader._bit_address_decompose', 'Reader.write_bit', 'Reader.get_word'):
         if not repo.has_func(READER_REL, q):
             continue
-        fn = repo.func(READER_REL, q)
+        from ..pyfacts import expand_private_calls as _epc
+        # a private `_wrap(x)` helper reads as the mask it applies (the accessors themselves stay calls: each is judged once)
+        fn = inline_pure_temps(_epc(repo, READER_REL, repo.func(READER_REL, q), 'Reader', keep=('_get_memory_word', '_set_memory_word', '_bit_address_decompose')))   # `w = self.memory_width` reads as the width
         params = [a.arg for a in fn.args.args if a.arg != 'self']
         for x in walk_no_nested(fn):
             pair = None
@@ -1037,6 +1048,14 @@ def rule_masks(rep: Report, repo: Repo) -> None:
                 pair = (x.left, x.right)
             elif isinstance(x, ast.AugAssign) and isinstance(x.op, ast.BitAnd):
                 pair = (x.target, x.value)
+            elif isinstance(x, ast.BinOp) and isinstance(x.op, ast.Mod):
+                # `a % m` for a power of two m (checked below on the grid) is `a & (m - 1)`, for negative a too
+                pair = (x.left, ast.BinOp(left=x.right, op=ast.Sub(), right=ast.Constant(value=1)))
+                try:
+                    if any((lambda v_: v_ <= 0 or v_ & (v_ - 1))(eval_int_expr(x.right, {'self.memory_width': wv_})) for wv_ in (8, 16, 32, 64)):
+                        pair = None
+                except AnalysisError:
+                    pair = None
             if pair is None:
                 continue
             from ..pyfacts import resolve_names as _rn2
